@@ -306,6 +306,16 @@ def _fi_layer_query(ex, st, k):
                     inside = z3.Or(inside, z3.And(ex.truth(st, c.result), eq(c.args[0], ex.opaque_field_at(st, c, q, 'coord')),
                                                   eq(c.args[1], ex.opaque_field_at(st, c, q, 'srs'))))
             goal = z3.And(goal, z3.Or(z3.Not(ex.truth(st, cov)), inside))
+    if gets and 'p' in st.env:
+        # the query handed to the layers is built from the request's own bbox, size and clicked pixel, in that order
+        iq = _named(st, 'InfoQuery')
+        p_ = st.env['p']
+        okq = len(iq) == 1 and len(iq[0][1].args) >= 4 and gets[0][1].args[-1] is iq[0][1].result
+        goal = z3.And(goal, z3.BoolVal(bool(okq)))
+        if okq:
+            e_ = iq[0][1]
+            goal = z3.And(goal, eq(e_.args[0], ex.opaque_field_at(st, e_, p_, 'bbox')), eq(e_.args[1], ex.opaque_field_at(st, e_, p_, 'size')),
+                          eq(e_.args[3], ex.opaque_field_at(st, e_, p_, 'pos')))
     yield ('featureinfo_after_authorization_inside_limit', goal,
            'get_info is reached only after authorized_layers -> filter_actual_layers(actual_layers, .., that decision), and '
            'only if there is no request-wide limit or it contains (query.coord, query.srs)')
@@ -313,7 +323,8 @@ def _fi_layer_query(ex, st, k):
 
 contract(WMS + 'WMSServer.featureinfo', props=['C10'],
          types=dict(request='opaque'), returns='opaque', default_callee='opaque', raises={'RequestError': True},
-         opaque_fields={'coord': 'opaque', 'srs': 'opaque'}, stable_fields=['coord', 'srs'],
+         opaque_fields={'coord': 'opaque', 'srs': 'opaque', 'bbox': 'opaque', 'size': 'opaque', 'pos': 'opaque'},
+         stable_fields=['coord', 'srs', 'bbox', 'size', 'pos'],
          opaque_spec={'contains': {'returns': 'bool', 'pure': True}, 'InfoQuery': {'pure': True}, 'SRS': {'pure': True},
                       'odict': {'pure': True}, 'keys': {'pure': True}, 'values': {'pure': True}, 'get': {'pure': True},
                       'info_layers_for_query': {'returns': 'list[tuple[opaque,opaque]]', 'pure': True},
@@ -358,6 +369,29 @@ def _map_protocol(ex, st, post, result):
                      _eq(mq[0][1].args[1], ex.opaque_field_at(st, mq[0][1], p_, 'size')))
     else:
         g_q = z3.BoolVal(bool(ok))
+    # the SRS-extent reduction: the rendered query is the part of the request inside the extent, and the result is put back
+    # at the offset of that part in an image of the ORIGINAL size
+    bp = _named(st, 'bbox_position_in_image')
+    sub = _named(st, 'SubImageSource')
+    g_sub = z3.BoolVal(len(bp) <= 1 and len(sub) <= len(bp))
+    if bp and ok and len(mq) == 2 and 'params' in st.env:
+        from pyvc.values import eq as _eq2, VSeq as _VSeq
+        p_ = st.env['params']
+        b = bp[0][1]
+        okb = len(b.args) == 3 and isinstance(b.result, _VSeq) and mq[1][1].args[0] is b.result.items[2] and mq[1][1].args[1] is b.result.items[0] \
+            and rend[0][1].args[1] is mq[1][1].result
+        g_sub = z3.And(g_sub, z3.BoolVal(bool(okb)))
+        if okb:
+            g_sub = z3.And(g_sub, _eq2(b.args[0], ex.opaque_field_at(st, b, p_, 'bbox')), _eq2(b.args[1], ex.opaque_field_at(st, b, p_, 'size')))
+            for i_, s_ in sub:
+                g_sub = z3.And(g_sub, z3.BoolVal(s_.args[0] is merges[0][1].result and s_.kwargs.get('offset') is b.result.items[1]),
+                               _eq2(s_.kwargs.get('size'), ex.opaque_field_at(st, s_, mq[0][1].result, 'size'))
+                               if s_.kwargs.get('size') is not None else z3.BoolVal(False))
+    elif bp:
+        g_sub = z3.BoolVal(False)
+    yield ('map_extent_reduction_is_consistent', g_sub,
+           'bbox_position_in_image(params.bbox, params.size, limited extent) -> MapQuery(sub_bbox, sub_size, ..) is what is rendered; '
+           'the merged image is wrapped in SubImageSource(.., size=original size, offset=that offset)')
     yield ('map_authorization_before_rendering', z3.And(z3.BoolVal(bool(ok)), g_q),
            'check_map_request -> MapQuery(params.bbox, params.size, ..) -> authorized_layers -> filter_actual_layers(.., that '
            'decision) -> LayerRenderer -> renderer.render(merger) -> merger.merge, each exactly once')
